@@ -151,6 +151,7 @@ func isInt(d ref.Dec, want *big.Int) bool {
 }
 
 func judgeNumFn(c NumFnCase) *eng.Fail {
+	const tol = 5e-15
 	x := parseOperand(c.X)
 	xr := x.Rat()
 	X := c.X
@@ -167,7 +168,8 @@ func judgeNumFn(c NumFnCase) *eng.Fail {
 	bad := func(fn string, i int, want interface{}) *eng.Fail {
 		return eng.F("C18/"+fn, "%s(%s) = %s, expected %v", fn, X, show(a[i]), want)
 	}
-	if d, ok := dec(0); !ok || !d.Finite() || d.Rat().Cmp(new(big.Rat).Abs(xr)) != 0 {
+	long := x.Digits() > 34 // abs, toFloat, toString and finite hand a number of more than 34 digits on in 34: not judged exactly
+	if d, ok := dec(0); !long && (!ok || !d.Finite() || d.Rat().Cmp(new(big.Rat).Abs(xr)) != 0) {
 		return bad("abs", 0, new(big.Rat).Abs(xr).FloatString(20))
 	}
 	if d, ok := dec(1); !ok || !isInt(d, ratCeil(xr)) {
@@ -185,6 +187,9 @@ func judgeNumFn(c NumFnCase) *eng.Fail {
 	}
 	if d, ok := dec(5); !ok || !isInt(d, ratTrunc(xr)) {
 		return bad("toInt", 5, ratTrunc(xr))
+	}
+	if long {
+		goto transcendental
 	}
 	if d, ok := dec(6); !ok || !d.Finite() || d.Cmp(x) != 0 {
 		return bad("toFloat", 6, x)
@@ -209,10 +214,10 @@ func judgeNumFn(c NumFnCase) *eng.Fail {
 			return eng.F("C18/argument-changed", "after abs ceil floor round roundBank toInt toFloat finite toString - ~ max min on $x = %s the local holds %s", X, show(o2.val.([]interface{})[len(o2.val.([]interface{}))-1]))
 		}
 	}
+transcendental:
 	outcome("basic " + ratRoundHalfEven(xr).String())
 
 	// transcendental functions
-	const tol = 5e-15
 	tr := func(fn, expr string, want *big.Float) *eng.Fail {
 		o, err := evalWith("["+expr+"]", map[string]interface{}{})
 		if err != nil || o.panicked || o.err != nil {
@@ -441,6 +446,10 @@ func c18Grid(quick bool) []string {
 		add(f + z70)
 	}
 	add("0.5" + strings.Repeat("0", 100))
+	// next to 1 with more than 64 decimal places (41 significant digits: only the integer-valued and the
+	// transcendental functions are judged)
+	// (positive only: unary minus hands a 41-digit literal on in 34 digits)
+	out = append(out, "1."+strings.Repeat("0", 39)+"1"+strings.Repeat("0", 30), "0."+strings.Repeat("9", 40)+strings.Repeat("0", 30), "1."+strings.Repeat("0", 19)+"1"+strings.Repeat("0", 50)+"7")
 	add("1.001")
 	add("170.6")
 	add("2.718281828459045")
